@@ -346,17 +346,21 @@ def gen_config(rng, thorough=False, max_wfs=None, n_wfs=None, hetero=False):
     L0s = [rng.choice([10.0, 25.0, 50.0, 100.0]) for _ in range(n_layers)]
     return {"n_wfs": n_wfs, "pupil_masks": masks, "telescope_diameter": tel, "subap_diameters": diams,
             "gs_altitudes": gs_alt, "gs_positions": gs_pos, "wfs_wavelengths": wl, "n_layers": n_layers,
-            "layer_altitudes": alts, "layer_r0s": r0s, "layer_L0s": L0s, "containers": rng.choice(["list", "ndarray"])}
+            "layer_altitudes": alts, "layer_r0s": r0s, "layer_L0s": L0s,
+            # how the caller holds the per-layer / per-sensor numbers: lists, float64 arrays, or single-precision arrays (the elements
+            # then reach the workers as numpy.float32 scalars: both assembly paths must do the same arithmetic with them)
+            "containers": rng.choice(["list", "ndarray", "list", "ndarray", "float32"])}
 
 
 def make_obj(cfg, threads=1):
     sc = sc_module()
     masks = [numpy.array(m, dtype=float) for m in cfg["pupil_masks"]]
-    conv = (lambda x: numpy.array(x)) if cfg.get("containers") == "ndarray" else (lambda x: list(x))
-    return sc.CovarianceMatrix(cfg["n_wfs"], masks, cfg["telescope_diameter"], conv(cfg["subap_diameters"]),
+    conv = (lambda x: numpy.array(x)) if cfg.get("containers") in ("ndarray", "float32") else (lambda x: list(x))
+    c32 = (lambda x: numpy.array(x, dtype=numpy.float32)) if cfg.get("containers") == "float32" else conv
+    return sc.CovarianceMatrix(cfg["n_wfs"], masks, cfg["telescope_diameter"], c32(cfg["subap_diameters"]),
                                conv(cfg["gs_altitudes"]), conv(cfg["gs_positions"]), conv(cfg["wfs_wavelengths"]),
-                               cfg["n_layers"], numpy.array(cfg["layer_altitudes"]), conv(cfg["layer_r0s"]),
-                               conv(cfg["layer_L0s"]), threads)
+                               cfg["n_layers"], numpy.array(cfg["layer_altitudes"]), c32(cfg["layer_r0s"]),
+                               c32(cfg["layer_L0s"]), threads)
 
 
 def cfg_class(cfg):
@@ -368,8 +372,10 @@ def cfg_class(cfg):
                                    ":offaxis-ngs+elevated" if ngs_off and up else "", ":mixed-diam/gs+elevated" if mixed and up else "")
 
 
-def _as_container(cfg, value):
-    return numpy.array(value) if cfg.get("containers") == "ndarray" else list(value)
+def _as_container(cfg, value, attr=None):
+    if cfg.get("containers") == "float32" and attr in ("layer_r0s", "layer_L0s", "subap_diameters"):
+        return numpy.array(value, dtype=numpy.float32)        # as make_obj hands them over
+    return numpy.array(value) if cfg.get("containers") in ("ndarray", "float32") else list(value)
 
 
 def gen_reconfigure(rng, cfg):
@@ -471,7 +477,7 @@ def run_history(cfg, scen, ref=None):
                     # the caller assigns new constructor attributes: from here on the reference is a FRESH object made with them
                     cfg = dict(cfg)
                     cfg[op[1]] = op[2]
-                    setattr(obj, op[1], numpy.array(op[2]) if op[1] == "layer_altitudes" else _as_container(cfg, op[2]))
+                    setattr(obj, op[1], numpy.array(op[2]) if op[1] == "layer_altitudes" else _as_container(cfg, op[2], op[1]))
                     ref = make_obj(cfg, 1).make_covariance_matrix()
                     reconf = True
                 elif op[0] == "E":
